@@ -191,6 +191,18 @@ def generate_meta(repo):
                f'its shape is `dftShapeOut`, its ptype `_propagate_ptype(wavefront.ptype)` (Gen.codePropagate, C08) -/\n'
                f'def dftOutMeta {R} (wavefront_pixelscale_0 wavefront_pixelscale_1 pixelscale_0 pixelscale_1 wavefront_wavelength wavefront_focal_length oversample : R) : R × (R × R) × R :=\n'
                f'  ({_rx(kw["wavelength"], envd)}, {_pair(_rx(kw["pixelscale"], envd))}, {_rx(kw["focal_length"], envd)})\n')
+    # ---- order of the entry guards: the plane-type check (`ptype_out = _propagate_ptype(...)`, TypeError) and the mask-shape guard
+    # (`raise ValueError` under `if mask is not None`) as positions among the top-level statements of propagate_dft
+    top = [n for n in fd.body if not (isinstance(n, ast.Expr) and isinstance(n.value, ast.Constant))]
+    ipt = [i for i, n in enumerate(top) if isinstance(n, ast.Assign) and ast.unparse(n.targets[0]) == 'ptype_out']
+    img = [i for i, n in enumerate(top) if any(isinstance(x, ast.Raise) for x in ast.walk(n))]
+    if len(ipt) != 1: raise Refuse('propagate_dft: ptype_out is not assigned exactly once at the top level of the function')
+    if len(img) != 1 or not (isinstance(top[img[0]], ast.If) and ast.unparse(top[img[0]].test) == 'mask is not None'):
+        raise Refuse('propagate_dft: expected exactly one top-level statement that can raise, the `if mask is not None:` block')
+    out.append(f'/-- translated from `propagate.py:propagate_dft` (line {top[ipt[0]].lineno}): position of `ptype_out = _propagate_ptype(wavefront.ptype, …)` (raises TypeError\n'
+               f'for a wavefront without plane type) among the top-level statements -/\ndef dftPtypeStmt : Int := {ipt[0]}\n')
+    out.append(f'/-- translated from `propagate.py:propagate_dft` (line {top[img[0]].lineno}): position of the `if mask is not None:` block (mask-shape guard, ValueError; empty\n'
+               f'support, IndexError) among the top-level statements; no other top-level statement raises -/\ndef dftMaskGuardStmt : Int := {img[0]}\n')
     # the per-Field pixelscale
     app = [n for n in ast.walk(fd) if isinstance(n, ast.Call) and ast.unparse(n.func) == 'Field']
     if len(app) != 1: raise Refuse('propagate_dft: expected one Field(...) construction')
